@@ -101,3 +101,13 @@ Definition effective (p : option profile) (c : cert_cfg) : option cert_cfg :=
       else None
     end
   end.
+
+(* the v1 conversion refuses a custom extension whose object identifier does not convert (in the certificate file or in the
+   profile file) before anything is merged or hashed *)
+Definition custom_oids_ok (l : list any_ext) : bool :=
+  forallb (fun x => match x with XCustom _ _ _ => match any_ext_oid x with Some _ => true | None => false end | _ => true end) l.
+
+(* both files of an entity pass the conversion: its own configuration and, if it names one, its profile (a profile file that
+   is refused is skipped, and the entity then references an unknown profile) *)
+Definition files_convert (p : option profile) (c : cert_cfg) : bool :=
+  custom_oids_ok (cc_exts c) && match p with Some pr => custom_oids_ok (map (@pe_ext any_ext) (pr_exts pr)) | None => true end.
